@@ -20,6 +20,9 @@ const FEATURES: [&str; 22] = [
 
 pub fn build_case(property: &str, kind: &str, t: &mut Tape, cfg: &gen::GenCfg, density: usize, ctx: &Ctx, level: DiagLevel) -> Option<(Case, interp::RunResult, sdmodel::ast::Prog, print::Printed)> {
     let prog = gen::gen_prog(t, cfg);
+    if let Some(m) = gen::replay_mode(&prog) {
+        ctx.label(&format!("whole text evaluated repeatedly: {m}"));
+    }
     let rr = interp::run(&prog);
     if let interp::Outcome::Discard(why) = &rr.outcome {
         ctx.exclude(why);
@@ -84,7 +87,7 @@ fn repetition_cases(ctx: &Ctx) -> Vec<(Case, bool)> {
 }
 
 pub fn run(ctx: &Ctx) {
-    ctx.set_rule("tape-decoded random programs over the documented feature set (balanced profile, ~2% sloppy choices), printed in a random layout; oracle: reference interpreter on stdout + success/failure class. Non-trivial = the run touches >= 4 of the feature classes listed under labels 'feature:*' including at least one loop or call; distinct = distinct source texts");
+    ctx.set_rule("tape-decoded random programs over the documented feature set (balanced profile, ~2% sloppy choices), printed in a random layout, one in six with its whole text evaluated repeatedly (called twice / three loop turns / re-entered while an outer activation is suspended half way / a closure per turn called later); oracle: reference interpreter on stdout + success/failure class. Non-trivial = the run touches >= 4 of the feature classes listed under labels 'feature:*' including at least one loop or call; distinct = distinct source texts");
     ctx.replay_corpus(None);
     ctx.judge_all(repetition_cases(ctx), Via::Cli, None);
     let cfg = gen::GenCfg::balanced();
